@@ -634,6 +634,15 @@ func (s nilState) of(v ssa.Value) int8 {
 		if isNilConst(v) {
 			return 1
 		}
+		if u, ok := v.(*ssa.UnOp); ok && u.Op == token.NOT {
+			switch s.of(u.X) {
+			case 1:
+				return 2
+			case 2:
+				return 1
+			}
+			return 0
+		}
 		if n, ok := s[v]; ok {
 			if n >= intBase {
 				return 0
